@@ -42,7 +42,15 @@ mpz_get_sx (mpz_srcptr z)
     while(n--)
         v = (v << GMP_NUMB_BITS) | z->_mp_d[n];
 #endif
-    return z->_mp_size < 0 ? -v : v;
+    /* as in mpz_get_si: the least significant part with the sign of z (bit 63
+       of |z| is not part of the result when z does not fit), and the second
+       expression handles INTMAX_MIN */
+    if (z->_mp_size > 0)
+        return (intmax_t) (v & INTMAX_MAX);
+    else if (z->_mp_size < 0)
+        return -(intmax_t) ((v - 1) & INTMAX_MAX) - 1;
+    else
+        return 0;
 }
 
 #endif
